@@ -127,6 +127,11 @@ func TestVerifC19Config(t *testing.T) {
 								L.Violation("dial-timeout-not-the-configured-one", desc)
 							case d.KeepAlive != ka:
 								L.Violation("keep-alive-not-the-configured-one", desc)
+							case ht.ExpectContinueTimeout != 0 || ht.TLSHandshakeTimeout != dial:
+								// waits the operator did not configure must not sit in front of the ones he did: the handshake is
+								// part of establishing the connection (dial timeout), nothing else waits
+								desc["expect_continue_timeout"], desc["tls_handshake_timeout"] = ht.ExpectContinueTimeout.String(), ht.TLSHandshakeTimeout.String()
+								L.Violation("unconfigured-wait-on-the-request-path/"+name, desc)
 							case c19Bypass(ht) != "":
 								desc["dial_path"] = c19Bypass(ht)
 								L.Violation("dial-path-bypasses-the-configured-dialer/"+name, desc)
@@ -142,7 +147,7 @@ func TestVerifC19Config(t *testing.T) {
 
 func TestVerifC19Behaviour(t *testing.T) {
 	L := ev.Begin("C19", "c19-behaviour", "exploration",
-		"upstream {answers at once, holds its response headers until released (plain request, event-stream request, proxy with a flush interval, an https upstream silent in the TLS handshake), answers at once and streams its body for 1.5s} x proxy.responseheadertimeout {unset, 200ms, 5s} through transport.SetConfig + main.newHTTPProxy + ServeHTTP: a held upstream with the 200ms limit must produce 504 while the upstream is still holding (causal: the harness releases the upstream only after the proxy answered; a 20s guard turns 'never answered' into the violation); an upstream answering at once yields 200 under every setting. non-trivial = every case")
+		"upstream {answers at once, holds its response headers until released (plain request, event-stream request, proxy with a flush interval, an https upstream silent in the TLS handshake, a request offering an h2c upgrade), answers at once and streams its body for 1.5s} x proxy.responseheadertimeout {unset, 200ms, 5s} through transport.SetConfig + main.newHTTPProxy + ServeHTTP: a held upstream with the 200ms limit must produce 504 while the upstream is still holding (causal: the harness releases the upstream only after the proxy answered; a 20s guard turns 'never answered' into the violation); an upstream answering at once yields 200 under every setting. non-trivial = every case")
 	var hold atomic.Value
 	var slow atomic.Value // if set: the upstream answers at once and then streams its body for this long
 	slow.Store(time.Duration(0))
@@ -166,7 +171,7 @@ func TestVerifC19Behaviour(t *testing.T) {
 	}))
 	defer up.Close()
 	for _, rh := range []time.Duration{0, 200 * time.Millisecond, 5 * time.Second} {
-		for _, mode := range []string{"prompt", "held", "held/event-stream-request", "held/flush-interval", "held/in-tls-handshake", "prompt/slow-body"} {
+		for _, mode := range []string{"prompt", "held", "held/event-stream-request", "held/flush-interval", "held/in-tls-handshake", "held/upgrade-h2c-request", "prompt/slow-body"} {
 			held := strings.HasPrefix(mode, "held")
 			if (held || mode == "prompt/slow-body") && rh != 200*time.Millisecond {
 				continue // without the short limit a held upstream simply holds the client, as configured
@@ -220,6 +225,10 @@ func TestVerifC19Behaviour(t *testing.T) {
 			raw := "GET /x HTTP/1.1\r\nHost: foo.com\r\n\r\n"
 			if mode == "held/event-stream-request" {
 				raw = "GET /x HTTP/1.1\r\nHost: foo.com\r\nAccept: text/event-stream\r\n\r\n"
+			}
+			if mode == "held/upgrade-h2c-request" {
+				// what `curl --http2` sends on a clear-text connection: an offer, not a websocket
+				raw = "GET /x HTTP/1.1\r\nHost: foo.com\r\nConnection: Upgrade, HTTP2-Settings\r\nUpgrade: h2c\r\nHTTP2-Settings: AAMAAABkAAQAAP__\r\n\r\n"
 			}
 			req, _ := http.ReadRequest(bufio.NewReader(bytes.NewBufferString(raw)))
 			req.RemoteAddr = "10.1.1.1:999"
